@@ -289,6 +289,30 @@ def _gen_columns(rng: random.Random) -> tuple[Any, list[list[Any]], str]:
     return pa.schema(fields), cols, f"cols{ncols}:rows{nrows}"
 
 
+def _wants_more_input(data: bytes) -> str:
+    """How the Arrow IPC reader takes *data* when nothing follows: 'complete' (a whole stream), 'rejected' (refused
+    without running out of bytes) or 'wants_more' (unexpected end of data: a blocking reader would wait)."""
+    import io
+
+    import pyarrow as pa
+    from pyarrow import ipc
+
+    try:
+        rd = ipc.open_stream(io.BytesIO(data))
+        while True:
+            try:
+                rd.read_next_batch()
+            except StopIteration:
+                return "complete"
+    except (pa.ArrowInvalid, OSError, EOFError) as exc:
+        msg = str(exc)
+        if any(t in msg for t in ("Expected to", "Tried reading", "end of stream", "EOF", "null or length 0", "Unexpected end", "bytes for message body, got")):
+            return "wants_more"
+        return "rejected"
+    except Exception:  # noqa: BLE001
+        return "wants_more"
+
+
 def run_shard(job: dict[str, Any]) -> dict[str, Any]:
     import contextlib
 
@@ -521,6 +545,19 @@ def run_shard(job: dict[str, Any]) -> dict[str, Any]:
             chk.hit("corrupt_reply_undecodable")
             chk.skip("corrupt_request_got_undecodable_reply")
         drop()
+        # The same bytes from a peer that keeps its write side open and waits for the reply.  Judged only when the
+        # bytes do not ask for more input: either they still parse as a complete request stream, or the IPC reader
+        # rejects them outright (not with an unexpected end of data) - a reader that wants more bytes may wait.
+        need = _wants_more_input(data)
+        if kindc == "corrupt" and need in ("complete", "rejected"):
+            c = conn()
+            c.send(data)
+            st, batches = c.read_stream()
+            chk.case(f"{key}:peer_keeps_writing_side_open:{need}")
+            chk.hit("corrupt_peer_waiting_judged")
+            if st == "timeout":
+                judge_timeout(c, f"{key}:peer_keeps_write_side_open", {**wit, "local_reading": need})
+            drop()
     _ = pa
     drop()
     with contextlib.suppress(Exception):
@@ -605,7 +642,7 @@ def _vclass(v: bytes) -> str:
 
 def main(tier: str, seed: int) -> int:
     chk = Check(PID, tier, seed, level=CATEGORY, rule=RULE)
-    chk.require("reply_decoded", "typed_error_reply", "success_reply", "probe_ok", "corrupt_connection_closed")
+    chk.require("reply_decoded", "typed_error_reply", "success_reply", "probe_ok", "corrupt_connection_closed", "corrupt_peer_waiting_judged")
     n = shard.ncpu()
     for res in shard.pmap("checks.c05", "run_shard", build_jobs(tier, seed, n), timeout=600 if tier == "quick" else 1700):
         chk.merge(res)
